@@ -98,6 +98,7 @@ func phiStep(p *ssa.Phi) int {
 func c12(c *Ctx) {
 	r := c.R
 	c12static(c)
+	c10cacheMode(c) // both passes of the BE cpuset rewrite keep the cache describing the files: a pass that bypasses it makes the next loosening pass look unchanged
 	r.Decides("LeveledUpdateBatch runs the merge pass over the levels in ascending order and the exact pass in descending order, merge pass first, both over the same batch")
 	r.Decides("cpuset.cpus, cpu.cfs_quota_us and memory.min/low/high are registered with a mergeable updater and the matching merge condition")
 	r.Decides("every write of LeveledUpdateBatch/updateByCache is dominated by needUpdate()==true (unchanged files are not rewritten); a merge write happens only when the merge condition says so and writes the merged value")
@@ -257,10 +258,32 @@ func c12registry(c *Ctx) {
 	}
 	got := map[string]string{}
 	re := regexp.MustCompile(`[a-z_]+\.[a-z_.]+`)
-	for _, fn := range c.PkgFuncs(rexPkg) {
-		if !strings.HasPrefix(fn.Name(), "init") {
-			continue
+	// which registration of a name counts: Register keeps the first one when its store into the registry is guarded by
+	// "not yet there", the last one otherwise
+	firstWins := false
+	if reg := c.Fn(rexPkg, "CgroupUpdaterFactoryImpl", "Register"); reg != nil {
+		for _, b := range reg.Blocks {
+			for _, in := range b.Instrs {
+				if mu, ok := in.(*ssa.MapUpdate); ok && strings.HasSuffix(an.Path(mu.Map), ".registry") {
+					for _, g := range an.Guards(mu) {
+						if ex, ok := g.Cond.(*ssa.Extract); ok && ex.Index == 1 {
+							if lk, ok := ex.Tuple.(*ssa.Lookup); ok && lk.CommaOk && strings.HasSuffix(an.Path(lk.X), ".registry") && !g.Truth {
+								firstWins = true
+							}
+						}
+					}
+				}
+			}
 		}
+	}
+	inits := []*ssa.Function{}
+	for _, fn := range c.PkgFuncs(rexPkg) {
+		if strings.HasPrefix(fn.Name(), "init") {
+			inits = append(inits, fn)
+		}
+	}
+	sort.Slice(inits, func(i, j int) bool { return c.Pos(inits[i].Pos()) < c.Pos(inits[j].Pos()) })
+	for _, fn := range inits {
 		for _, cl := range an.Calls(fn, false) {
 			if an.ShortCallee(cl.Common()) != "Register" {
 				continue
@@ -286,6 +309,9 @@ func c12registry(c *Ctx) {
 				}
 			}
 			for _, n := range names {
+				if _, dup := got[n]; dup && firstWins {
+					continue // Register ignores a name that is already registered
+				}
 				got[n] = ctor
 			}
 		}
